@@ -14,6 +14,16 @@ Theorem C14_denials_are_public :
 Proof. exact deny_public_ok. Qed.
 Print Assumptions C14_denials_are_public.
 
+(* ... and that public material - the authorization request, the session cookie, the logout redirect - is the same
+   whatever the client secret and the code verifier are: replacing them changes none of it *)
+Theorem C14_public_material_ignores_secrets :
+  forall c s v g,
+    authorization_url (with_secret c s) (with_verifier g v) = authorization_url c g /\
+    set_cookie_header (cookie_prefix (with_secret c s)) (g_sid (with_verifier g v)) SessionCookie = set_cookie_header (cookie_prefix c) (g_sid g) SessionCookie /\
+    logout (with_secret c s) = logout c.
+Proof. exact public_material_ignores_secrets. Qed.
+Print Assumptions C14_public_material_ignores_secrets.
+
 (* an OK adds nothing but the configured token headers *)
 Theorem C14_ok_adds_only_tokens :
   forall c db now r answers h tr rest,
